@@ -159,6 +159,35 @@ def canon_model_state(fields):
                       c16.enc_entries(str, sorted(c16.dec_entries(int, ign))),
                       c16.encL(',', sorted(c16.decL(',', dflt))), cu])
 
+def passes_owner_check(b):
+    """accounts for which the bot's own owner test succeeds (not just those that hold the word 'owner')"""
+    out = set()
+    for i, u in b.ircdb.users.users.items():
+        try:
+            if u._checkCapability('owner'):
+                out.add(i)
+        except KeyError:
+            pass
+        except Exception:
+            out.add(i)
+    return out
+
+def indep_chan_op(b, S, who_ids, chan):
+    """does the sender hold #chan,op — decided from the snapshot S alone (the accounts' capability lists and the channel
+    RECORDS that exist), without asking ircdb.checkCapability / getChannel.  True / False when a record decides it, None otherwise"""
+    low = b.ircutils.toLower(chan)
+    if len(who_ids) > 1:
+        return None
+    if len(who_ids) == 1:
+        caps = dict(S['users']).get(who_ids[0], {}).get('caps', [])
+        if 'owner' in caps or low + ',op' in caps: return True
+        if low + ',-op' in caps: return False
+    rec = [c_ for n, c_ in S['chans'] if b.ircutils.toLower(n) == low]
+    ccaps = rec[0]['caps'] if rec else DEFAULT_CHAN['caps']       # no record: a fresh IrcChannel() (it has -op)
+    if 'op' in ccaps: return True
+    if '-op' in ccaps: return False
+    return None
+
 def owners_of(S):
     return {i for i, u in S['users'] if 'owner' in u['caps']}
 
@@ -173,7 +202,7 @@ HOSTILE_NAMES = [' bob', 'bob ', 'x\n  capability owner', 'y\r  capability owner
                  'é', 'n m', '\x0bv', 'x\n', '*', 'root\n', ' ', 'owner']
 BREAK_NAMES = ['x\r  capability owner', 'z\n  capability owner', 'q\r\n  capability owner', 'w\r  capability admin', 'k\rname root']
 LINE_BREAKERS = '\r\n\x0b\x0c\x1c\x1d\x1e\x85\u2028\u2029'
-CAPS = ['owner', 'admin', 'trusted', 'foo', 'bar', '-foo', '--foo', '-admin', '-owner', 'OWNER', 'Owner', 'oWNER', 'FOO[',
+CAPS = ['owner', 'admin', 'trusted', 'foo', 'bar', '-foo', '--foo', '-admin', '-owner', '-OWNER', '-Owner', 'OWNER', 'Owner', 'oWNER', 'FOO[',
         '--owner', '--OWNER', '----owner', '--admin', '#chan,--op', '#other,owner', '#other,foo', '#other,-foo',
         '#chan,op', '#chan,foo', '#chan,-foo', '#chan,owner', '#other,op', 'user.register', '-user.register', '-register', '-user',
         '-add', '-admin.capability', 'admin.capability.add', 'halfop', 'op']
@@ -376,6 +405,7 @@ def run_history(b, r, n_steps, out, hist_id):
     drv = [plugins_line(b), 'init\t%s\t%s\t%s\t-\t1' % (c16.enc_users(S['users']), c16.enc_chans(S['chans']), c16.encL(',', [str(x) for x in b.conf.supybot.capabilities()]))]
     steps = []
     prev = S
+    prev_pass = passes_owner_check(b)
     trail = []
     # half of the histories run with supybot.databases.users.timeoutIdentification = 3600: the clock then jumps past
     # it now and then (Ev.expire: every login made so far is gone)
@@ -521,6 +551,13 @@ def run_history(b, r, n_steps, out, hist_id):
         # ---- property oracle on the implementation
         msgs = []
         new_owners = owners_of(cur) - owners_of(prev)
+        cur_pass = passes_owner_check(b)
+        if cur_pass - prev_pass:
+            msgs.append('account(s) %s now pass the owner check (capabilities %s) after %s %r by %s'
+                        % (sorted(cur_pass - prev_pass), {i: u['caps'] for i, u in cur['users'] if i in cur_pass - prev_pass}, k, args, actor))
+        for i, u in cur['users']:
+            if '-owner' in u['caps']:
+                msgs.append('account %d holds -owner (UserCapabilitySet refuses it: whoever holds it passes every owner test)' % i)
         if new_owners:
             msgs.append('account(s) %s became owner through %s %r by %s' % (sorted(new_owners), k, args, actor))
         if k in ('flushReload', 'reload'):
@@ -547,6 +584,10 @@ def run_history(b, r, n_steps, out, hist_id):
             elif k == 'capAdd' and gained != {guard[1]}:
                 # the caller was entitled to grant exactly the (lower-cased) capability they named
                 msgs.append('account %d gained %s through capAdd of %r by %s' % (i, sorted(gained), guard[1], actor))
+            elif k == 'chanCapAdd' and indep_chan_op(b, prev, who_ids, args[0]) is False:
+                msgs.append('account %d gained %s through chanCapAdd on %r by %s, who is not op there by any record: the sender\'s '
+                            'accounts %s, channel records %s' % (i, sorted(gained), args[0], actor, who_ids,
+                                                                 [n for n, _c in prev['chans']]))
             elif k == 'chanCapAdd':
                 # holding #chan,op entitles to capabilities of #chan only
                 want = b.ircutils.toLower(args[0])
@@ -586,6 +627,7 @@ def run_history(b, r, n_steps, out, hist_id):
             drv.append('cmd\t%s\t%s' % (wire.enc(actor), enc_cmd(k, args)))
         kinds.append('step')
         prev = cur
+        prev_pass = cur_pass
     def fill(o, steps=steps, kinds=kinds):
         # o[0] = plugins, o[1] = init echo; then one line per step, and one per order event
         res = []
